@@ -186,22 +186,23 @@ type Violation struct {
 }
 
 type ShardResult struct {
-	Property    string              `json:"property"`
-	Shard       int                 `json:"shard"`
-	Evaluations int64               `json:"evaluations"`
-	Transitions int64               `json:"transitions"`
-	Traces      int64               `json:"traces"`
-	Counters    map[string]int64    `json:"counters"`
-	Sets        map[string][]uint64 `json:"sets"`
-	Samples     []json.RawMessage   `json:"samples"`
-	Violations  []Violation         `json:"violations"`
-	Exhaustive  bool                `json:"exhaustive"`
-	Caps        []string            `json:"caps"`
-	Notes       []string            `json:"notes"`
-	Rule        string              `json:"rule"`
-	Assumptions []string            `json:"assumptions"`
-	Extra       map[string]any      `json:"extra"`
-	Completed   bool                `json:"completed"`
+	Property     string              `json:"property"`
+	Shard        int                 `json:"shard"`
+	Evaluations  int64               `json:"evaluations"`
+	Transitions  int64               `json:"transitions"`
+	Traces       int64               `json:"traces"`
+	Counters     map[string]int64    `json:"counters"`
+	Sets         map[string][]uint64 `json:"sets"`
+	Samples      []json.RawMessage   `json:"samples"`
+	Violations   []Violation         `json:"violations"`
+	Exhaustive   bool                `json:"exhaustive"`
+	Caps         []string            `json:"caps"`
+	Notes        []string            `json:"notes"`
+	Rule         string              `json:"rule"`
+	Assumptions  []string            `json:"assumptions"`
+	Extra        map[string]any      `json:"extra"`
+	Completed    bool                `json:"completed"`
+	OutcomeNames []string            `json:"outcome_names"`
 }
 
 type knownFile struct {
@@ -343,6 +344,7 @@ type merged struct {
 	caps, notes, assumptions   []string
 	rule                       string
 	extra                      map[string]any
+	outcomeNames               []string
 }
 
 func mergeShards(rs []*ShardResult) *merged {
@@ -379,6 +381,12 @@ func mergeShards(rs []*ShardResult) *merged {
 			if !seenV[v.Key] {
 				seenV[v.Key] = true
 				m.violations = append(m.violations, v)
+			}
+		}
+		for _, o := range r.OutcomeNames {
+			if !seenS["o"+o] && len(m.outcomeNames) < 300 {
+				seenS["o"+o] = true
+				m.outcomeNames = append(m.outcomeNames, o)
 			}
 		}
 		if !r.Exhaustive {
@@ -609,6 +617,7 @@ func doCheck(cfg *CheckCfg, tier, patch string, seed int64, scratch string, star
 		"transitions":                   m.transitions,
 		"traces_validated_against_impl": m.traces,
 		"distinct_outcomes":             len(m.sets["outcomes"]),
+		"outcome_list":                  sortedOrEmpty(m.outcomeNames),
 		"exhaustive":                    m.exhaustive && !infra,
 		"caps_hit":                      m.caps,
 		"counters":                      m.counters,
@@ -740,6 +749,9 @@ func cmdReplay(args []string) int {
 	if res == nil {
 		fmt.Fprintf(os.Stderr, "HARNESS-ERROR %v\n%s\n", err, tail(log, 4000))
 		return 2
+	}
+	if os.Getenv("VERIF_SHOWLOG") != "" {
+		fmt.Fprintln(os.Stderr, tail(log, 200000))
 	}
 	if len(res.Violations) > 0 {
 		for _, v := range res.Violations {
@@ -921,4 +933,11 @@ func runShardSkippingCrashes(bin string, cfg *CheckCfg, tier string, seed int64,
 			return res, log, err
 		}
 	}
+}
+
+// sortedOrEmpty returns a sorted copy (never nil: evidence must not contain null arrays).
+func sortedOrEmpty(l []string) []string {
+	out := append([]string{}, l...)
+	sort.Strings(out)
+	return out
 }
